@@ -78,9 +78,9 @@ def viol(ctx, sig, X, extra):
 
 
 # ------------------------------------------------------------------------------------------------
-def check_preserved(ctx, routine, X, Y, E, step, extra, bonds_before, m_limit=None):
+def check_preserved(ctx, routine, X, Y, E, step, extra, bonds_before, m_limit=None, cls=None):
     """object / sector / bond claims common to every routine. Returns True when all hold."""
-    cls = inclass(X)
+    cls = cls or inclass(X)
     scale = max(nrm(E), 1e-300)
     ok = True
     try:
@@ -294,6 +294,8 @@ def test_compress(ctx, X, E):
     else:
         run.count("compress:rank-ambiguous-or-one-site")
     var = variants[int(rng.integers(len(variants)))]
+    if kind == "mpo" and len(variants) > 2 and len(set(ranks[1:-1])) > 1 and rng.random() < 0.5:
+        var = ["max-rank", "config-fixed"][int(rng.integers(2))]
     d = "RL"[int(rng.integers(2))]    # direction of the canonicalising sweep; compress goes back
     extra = dict(test="compress", variant=var, cano_direction=d, schmidt_ranks=ranks)
     Y = X.copy()
@@ -347,7 +349,14 @@ def test_compress(ctx, X, E):
         res, ok = guarded(ctx, "compress", X, f, extra)
     if not ok:
         return
-    if not check_preserved(ctx, "compress", X, Y, E, 1, extra, bonds, m_limit=mlim):
+    routine, cls = "compress", None
+    if kind == "mpo" and var in ("max-rank", "config-fixed") and len(set(ranks[1:-1])) > 1:
+        # operators: singular values stay in the site instead of travelling with the sweep, so a
+        # uniform limit above the rank of an earlier bond lets zero-weight directions displace real
+        # ones at the next bond (reproduced by hand; reported under its own signature)
+        cls = "mpo:uniform-limit-above-local-rank"
+        run.count("compress:mpo-uniform-limit-above-local-rank")
+    if not check_preserved(ctx, routine, X, Y, E, 1, extra, bonds, m_limit=mlim, cls=cls):
         return
     if n >= 2:
         # compress ran opposite to the canonicalising sweep
@@ -408,8 +417,20 @@ def test_ensure(ctx, X, E):
 
 
 def test_variational(ctx, model):
-    """variational compression of operator x state with a sufficient bond limit"""
+    """variational compression of operator x state with a sufficient bond limit.
+
+    C04 quantifies over inputs and histories, not over configurations, so the verdict is taken with
+    the default configuration (2-site method, default vguess_m = (5, 5)); the states are given
+    bonds up to 8 so that the default guess really is a truncation.  Two non-default settings are
+    also run: the 1-site method from an exact guess (the exact product must be a fixed point of the
+    sweep -- judged), and the 2-site method from a poor guess of bond 1..3 (only measured and
+    counted: stalling from a poor start is a limitation of the algorithm, not judged here)."""
     rng, run = ctx.rng, ctx.run
+    mode = ["default", "default", "1site-exact-guess", "poor-guess"][int(rng.integers(4))]
+    if mode == "default":
+        # own model: long enough and with sectors wide enough for Schmidt ranks above 5
+        n = int(rng.integers(4, 6 if ctx.quick else 7))
+        model = lc.build_model(lc.random_model_spec(rng, n, 1, max_d=3, neutral=rng.random() < 0.5))
     n = model.nsite
     if n < 2:
         return
@@ -426,7 +447,8 @@ def test_variational(ctx, model):
         return
     psi = None
     for _ in range(6):
-        psi = lc.random_chain(rng, model, "mps", cplx=bool(rng.random() < 0.3), max_bond=3,
+        psi = lc.random_chain(rng, model, "mps", cplx=bool(rng.random() < 0.3), max_bond=8 if mode == "default" else 3,
+                              p_one=0.0 if mode == "default" else 0.15, p_dead=0.0 if mode == "default" else 0.15,
                               coeff=float(rng.choice([1.0, 2.0, 0.5])), centre=n - 1, to_right=False)
         if psi is not None and nrm(lc.dense_state(O) @ lc.dense_state(psi)) > 1e-3 * nrm(lc.dense_state(O)) * nrm(lc.dense_state(psi)):
             break
@@ -444,52 +466,60 @@ def test_variational(ctx, model):
     lc.prep(O, "L")
     lc.prep(psi, "L")
     M = max(ranks) + int(rng.integers(0, 3))
-    method = "2site" if rng.random() < 0.75 else "1site"
-    if method == "1site":
-        guess = (64, 64)           # exact guess: the exact product must be a fixed point
+    if mode == "default":
+        cfg = CompressConfig(CompressCriteria.fixed, max_bonddim=M)
+    elif mode == "1site-exact-guess":
+        cfg = CompressConfig(CompressCriteria.fixed, max_bonddim=M, vmethod="1site", vguess_m=(64, 64))
     else:
         g = int(rng.integers(1, 4))
-        guess = (g, g)
-    psi.compress_config = CompressConfig(CompressCriteria.fixed, max_bonddim=M, vmethod=method, vguess_m=guess)
+        cfg = CompressConfig(CompressCriteria.fixed, max_bonddim=M, vguess_m=(g, g))
+    method, guess = cfg.vmethod, tuple(cfg.vguess_m)
+    psi.compress_config = cfg
     entry = "variational_compress" if rng.random() < 0.5 else "contract"
-    extra = dict(test="variational", method=method, vguess_m=list(guess), max_bonddim=M, schmidt_ranks=ranks,
+    extra = dict(test="variational", mode=mode, method=method, vguess_m=list(guess), max_bonddim=M, schmidt_ranks=ranks,
                  operator=lc.dump_chain(O), entry=entry)
-    run.count(f"variational:{method}:guess-{'exact' if guess[0] > 8 else guess[0]}")
-    ctx.tally(("var", n, model.qn_size, tuple(int(b) for b in psi.bond_dims), tuple(int(b) for b in O.bond_dims), method, guess, M),
-              max(psi.bond_dims) >= 2 and max(O.bond_dims) >= 2)
-    if guess[0] < 8:
-        # a truncated guess (compressed mpo @ compressed mps, as variational_compress builds it) may
-        # vanish altogether; the routine then cannot start.  That is a property of the chosen
-        # vguess_m, not of the bond limit, so such cases are set aside.
-        try:
-            go = O.copy().canonicalise().compress(temp_m_trunc=guess[0])
-            gp = psi.copy().canonicalise().compress(temp_m_trunc=guess[1])
-            gn = nrm(lc.dense_state(go) @ lc.dense_state(gp))
-        except Exception:  # noqa: BLE001
-            gn = 0.0
-        if gn < 1e-6 * nrm(P):
-            run.count("rejected:variational-guess-vanishes")
-            return
+    # is the guess (compressed mpo @ compressed mps, as variational_compress builds it) lossy / zero?
+    try:
+        go = O.copy().canonicalise().compress(temp_m_trunc=guess[0])
+        gp = psi.copy().canonicalise().compress(temp_m_trunc=guess[1])
+        gerr = nrm(lc.dense_state(go) @ lc.dense_state(gp) - P) / nrm(P)
+    except Exception:  # noqa: BLE001
+        gerr = 1.0
+    if gerr > 1 - 1e-6:
+        run.count("rejected:variational-guess-vanishes")
+        return
+    run.count(f"variational:{mode}:" + ("guess-lossy" if gerr > 1e-8 else "guess-exact"))
+    ctx.tally(("var", n, model.qn_size, tuple(int(b) for b in psi.bond_dims), tuple(int(b) for b in O.bond_dims), mode, guess, M),
+              max(psi.bond_dims) >= 2 and max(O.bond_dims) >= 2 and gerr > 1e-8)
     np.random.seed(int(rng.integers(2 ** 31 - 1)))   # svd_qn.add_orthonormal_basis uses np.random
     x = psi.copy()
     f = (lambda: x.variational_compress(O)) if entry == "variational_compress" else (lambda: O.contract(x, algo="variational"))
+    if mode == "poor-guess":
+        try:
+            r = f()
+            err = nrm(lc.dense_state(r) - P) / nrm(P)
+            run.count("variational:poor-guess:" + ("converged" if err <= VAR_TOL else "stalled(observation)"))
+        except Exception as e:  # noqa: BLE001
+            run.count(f"variational:poor-guess:{type(e).__name__}(observation)")
+        return
     r, ok = guarded(ctx, "variational", psi, f, extra)
     if not ok:
         return
     try:
         obs = lc.dense_state(r)
     except ValueError as e:
-        viol(ctx, f"variational:{method}:malformed", psi, dict(extra, observed=str(e)))
+        viol(ctx, f"variational:{mode}:malformed", psi, dict(extra, observed=str(e)))
         return
     err = nrm(obs - P) / nrm(P)
     run.count("variational:err<=1e-10" if err <= 1e-10 else ("variational:err<=1e-8" if err <= 1e-8 else "variational:err>1e-8"))
     if not err <= VAR_TOL:
-        viol(ctx, f"variational:{method}:not-converged-to-product", psi, dict(extra, rel_err=err, bond_dims=[int(b) for b in r.bond_dims]))
+        viol(ctx, f"variational:{mode}:not-converged-to-product", psi, dict(extra, rel_err=err, guess_rel_err=gerr,
+                                                                            bond_dims=[int(b) for b in r.bond_dims]))
         return
     if max(r.bond_dims) > M:
-        viol(ctx, f"variational:{method}:bond-over-limit", psi, dict(extra, bond_dims=[int(b) for b in r.bond_dims]))
+        viol(ctx, f"variational:{mode}:bond-over-limit", psi, dict(extra, bond_dims=[int(b) for b in r.bond_dims]))
     if nrm(lc.dense_state(x) - Epsi) > RTOL * nrm(Epsi):
-        viol(ctx, f"variational:{method}:input-changed", psi, extra)
+        viol(ctx, f"variational:{mode}:input-changed", psi, extra)
 
 
 # ------------------------------------------------------------------------------------------------
@@ -567,7 +597,7 @@ def draw_input(ctx, model):
 
 def search(run, rng, quick):
     ctx = Ctx(run, rng, quick)
-    rounds = 60 if quick else 600
+    rounds = 450 if quick else 4500
     nmax = 5 if quick else 6
     for rd in range(rounds):
         if ctx.out_of_time():
